@@ -485,6 +485,23 @@ def _seqfun_helper(name, elem):
     return h
 
 
+def _duefun_helper(name):
+    def h(it, args, kw):
+        q, now = args
+        t = natives.seq_of(it, q)
+        if t is None:
+            t = z3.Empty(smt.SeqVal)
+        r = natives.duefun_apply(it, name, t, it.to_int(now))
+        if name == "due_prefix_completes":
+            return BoolSV(r)
+        return ListObj(term=r, elem="val" if name == "due_prefix_vals" else "tupnotif")
+    return h
+
+
+for _n in ("due_prefix_vals", "due_prefix_completes", "drop_due_prefix"):
+    _helper(_n)(_duefun_helper(_n))
+
+
 # functions of a queue of time-stamped records (see natives.SEQFUNS)
 _helper("drop_aged_prefix")(_seqfun_helper("drop_aged_prefix", "tup:int,val"))
 _helper("aged_prefix_vals")(_seqfun_helper("aged_prefix_vals", "val"))
@@ -676,6 +693,11 @@ class OpHarness:
         """the closure scope that holds the operator's cells: a handler's defining scope, or - for a handler
         wrapped by a decorator (synchronized) - the wrapped function's scope"""
         cands = []
+        hs = list(hs)
+        # handlers that reach the operator through callee stages (source.pipe(materialize(), ...).subscribe(on_next)):
+        # the operator's own closures are the consumers of the last stage
+        for (_cs, _cc, _st, out) in getattr(self.w, "cspecs", []):
+            hs.extend(h for h in out.attrs.get("handlers", ()) if isinstance(h, Closure))
         for h in hs:
             if isinstance(h, Closure) and h.env is not None:
                 cands.append(h.env)
@@ -819,7 +841,7 @@ class OpHarness:
         # the recursive sequence functions a spec module defines natively are the uninterpreted functions with their
         # defining equations on the symbolic side
         menv = it.module_env(modname)
-        for n in natives.SEQFUNS:
+        for n in list(natives.SEQFUNS) + list(natives.DUEFUNS):
             if n in menv.vars or n in it.loader.load(modname).bindings():
                 menv.vars[n] = SPEC_HELPERS[n]
         s = Obj(cls)
@@ -1097,6 +1119,8 @@ class OpHarness:
         lenv = Env(env, env.module)
         for n, f in SPEC_HELPERS.items():
             lenv.vars[n] = f
+        if getattr(self.c, "timed", False) and getattr(w, "now_term", None) is not None:
+            lenv.vars["now_"] = IntSV(w.now_term)  # the instant of the step the loop runs in
         # old(x) snapshots
         for n in lc.get("old", []):
             v = it.lookup(env, n)
